@@ -34,9 +34,10 @@ var locationTable = []struct{ fn, loc string }{
 	{"getSortedMultipliersCache", "unit_cache"}, // unit.sorted
 	{"updateReCache", "unit_cache"},             // unit.re, unit.names
 	{"(*UnitsDefinition).", "unit_cache"},
-	{"inlineShorthand", "shorthand_marks"}, // walk marks of the shorthand guard (scratch L1..L3)
-	{"setupStepData", "step_table"},        // steps.table
-	{"ApplyNamespace", "link"},             // link.<ref>
+	{"AddPathSegment", "shared_error_value"}, // a ConstraintError shared between calls (scratch: its path segments)
+	{"inlineShorthand", "shorthand_marks"},   // walk marks of the shorthand guard (scratch L1..L3)
+	{"setupStepData", "step_table"},          // steps.table
+	{"ApplyNamespace", "link"},               // link.<ref>
 	// lowest priority: convertData alone (the crashing goroutine of a fatal concurrent map access: it ranges
 	// over its raw data, which is shared only when it is the aliased default map)
 	{"convertData", "shared_default_map"},
@@ -94,7 +95,7 @@ func parseRaceLog(text string) []raceReport {
 		}
 		rep := raceReport{text: strings.TrimSpace(block)}
 		var fns []string
-		sdk := 0
+		sdk, callerReads := 0, 0
 		for _, a := range accs {
 			key := ""
 			sdkKey := func(f [2]string) string {
@@ -126,6 +127,9 @@ func parseRaceLog(text string) []raceReport {
 				}
 			}
 			if key == "" {
+				if a.kind == "read" {
+					callerReads++ // the harness reading something (a result, an error value) the SDK gave it
+				}
 				continue
 			}
 			sdk++
@@ -136,8 +140,19 @@ func parseRaceLog(text string) []raceReport {
 				rep.b = a.kind + " " + key
 			}
 		}
+		// One access in the SDK and the other a READ by the caller: the caller reads only what the SDK returned to
+		// it (results, errors) or its own arguments, so the SDK is still writing to a value it has handed out (or
+		// shares between calls) - the SDK's race.  Both accesses outside the SDK, or the caller WRITING, is the
+		// harness's own race.
+		if sdk == 1 && len(accs) == 2 && callerReads == 1 {
+			if rep.b == "" {
+				rep.b = "read <caller reading a returned value>"
+			}
+			rep.location = locationOf(fns)
+			out = append(out, rep)
+			continue
+		}
 		if sdk == 0 || sdk < len(accs) {
-			// an access outside the SDK (harness code touching shared data) is the harness's own race
 			rep.harness = true
 			out = append(out, rep)
 			continue
